@@ -1,3 +1,4 @@
+import Plotink.Model.PyFloat
 /-! Dynamically-typed numeric Python values and operators used by the generated code (core Lean only). -/
 namespace Plotink
 
@@ -63,7 +64,9 @@ def pack (R : Rounding) (prec : Nat) (k : Kind) (exactInt : Int) (q : Rat) : Val
   | .bad => err
 
 def add (R : Rounding) (prec : Nat) (a b : Val) : Val :=
-  pack R prec (join (kind a) (kind b)) (toInt a + toInt b) (num a + num b)
+  match a, b with
+  | str s, str t => str (s ++ t)        -- `+` on two strings is concatenation
+  | a, b => pack R prec (join (kind a) (kind b)) (toInt a + toInt b) (num a + num b)
 def sub (R : Rounding) (prec : Nat) (a b : Val) : Val :=
   pack R prec (join (kind a) (kind b)) (toInt a - toInt b) (num a - num b)
 def mul (R : Rounding) (prec : Nat) (a b : Val) : Val :=
@@ -131,7 +134,14 @@ def min_ (l : List Val) : Val :=
   | x :: xs => xs.foldl (fun m v => if lt v m then v else m) x
 def float_ (R : Rounding) (a : Val) : Val :=
   match a with
-  | int z => flt (R.f64 z) | bool_ b => flt (if b then 1 else 0) | flt q => flt q | mpf q => flt (R.f64 q) | _ => err
+  | int z => flt (R.f64 z) | bool_ b => flt (if b then 1 else 0) | flt q => flt q | mpf q => flt (R.f64 q)
+  | str s =>
+    -- `float(str)`: the executable grammar of `Model/PyFloat.lean` (ASCII), then one correct rounding.
+    -- `err` is the ValueError.  `inf`/`nan` numerals are outside this value domain (no non-finite floats): also `err`.
+    (match PyFloat.parseFloat s.toList with
+     | some (.fin q) => flt (R.f64 q)
+     | _ => err)
+  | _ => err
 def isNone (a : Val) : Bool :=
   match a with | none_ => true | _ => false
 /-- Python floor division / modulo; only the int/int case is modelled, everything else is `err`. -/
@@ -150,7 +160,10 @@ def unpackN (a : Val) (n : Nat) : Val :=
   | _ => err
 
 def getItem (a : Val) (i : Nat) : Val :=
-  match a with | tup l => l.getD i err | _ => err
+  match a with
+  | tup l => l.getD i err
+  | str s => (match s.toList[i]? with | some c => str (String.ofList [c]) | none => err)
+  | _ => err
 def truthy (a : Val) : Bool :=
   match a with
   | int z => z != 0 | bool_ b => b | flt q => q != 0 | mpf q => q != 0 | str s => s != "" | none_ => false
@@ -226,6 +239,11 @@ def index (a i : Val) : Val :=
     let k := toInt i
     let k := if k < 0 then k + l.length else k
     if 0 ≤ k ∧ k < l.length then l.getD k.toNat err else err
+  | str s, .i =>
+    let l := s.toList
+    let k := toInt i
+    let k := if k < 0 then k + l.length else k
+    if 0 ≤ k ∧ k < l.length then (match l[k.toNat]? with | some c => str (String.ofList [c]) | none => err) else err
   | _, _ => err
 
 /-- one bound of a slice over a sequence of length `n`, clamped as Python does; `dflt` for an omitted bound -/
@@ -242,6 +260,11 @@ def slice (a lo hi : Val) : Val :=
   | tup l =>
     match sliceBound l.length lo 0, sliceBound l.length hi l.length with
     | some i, some j => tup ((l.take j).drop i)
+    | _, _ => err
+  | str s =>
+    let l := s.toList
+    match sliceBound l.length lo 0, sliceBound l.length hi l.length with
+    | some i, some j => str (String.ofList ((l.take j).drop i))
     | _, _ => err
   | _ => err
 
@@ -293,6 +316,161 @@ def range_ (args : List Val) : Val :=
   | [int a, int b] => mk a b 1
   | [int a, int b, int s] => mk a b s
   | _ => err
+
+/-! ## Strings (`str` methods, formatting, `float(str)`, `try`/`except`)
+
+A Python `str` is `Val.str` over Lean `String`; every operation goes through the code-point list
+(`String.toList` / `String.ofList`), so the bridges to the `List Char` hand models are one rewrite with
+`String.toList_ofList`.  White space, lower-casing, `split()` and `float()` are the ASCII models of
+`Model/PyFloat.lean` (the same functions the hand models use). -/
+
+/-- a string value from its code points -/
+def ofL (l : List Char) : Val := str (String.ofList l)
+
+/-- `s.replace(pat, rep)` for a non-empty `pat`: left to right, non-overlapping. `skip` = characters of the
+current match still to be dropped -/
+def replaceGo (pat rep : List Char) : Nat → List Char → List Char
+  | _, [] => []
+  | skip + 1, _ :: cs => replaceGo pat rep skip cs
+  | 0, c :: cs =>
+    if pat.isPrefixOf (c :: cs) then rep ++ replaceGo pat rep (pat.length - 1) cs
+    else c :: replaceGo pat rep 0 cs
+/-- `s.replace(pat, rep)` (all occurrences); an empty pattern matches before every character and at the end -/
+def replaceL (pat rep s : List Char) : List Char :=
+  if pat = [] then rep ++ s.flatMap (fun c => c :: rep) else replaceGo pat rep 0 s
+def str_replace (s a b : Val) : Val :=
+  match s, a, b with
+  | str s, str a, str b => ofL (replaceL a.toList b.toList s.toList)
+  | _, _, _ => err
+def str_strip (s : Val) : Val :=
+  match s with | str s => ofL (PyFloat.pyStrip s.toList) | _ => err
+def str_lower (s : Val) : Val :=
+  match s with | str s => ofL (PyFloat.lower s.toList) | _ => err
+/-- `s.split()` -/
+def str_split (s : Val) : Val :=
+  match s with | str s => tup ((PyFloat.pySplit s.toList).map ofL) | _ => err
+/-- `s.split(sep)` for a non-empty separator: `cur` is the field being collected (reversed) -/
+def splitOnGo (sep : List Char) : Nat → List Char → List Char → List (List Char)
+  | _, [], cur => [cur.reverse]
+  | skip + 1, _ :: cs, cur => splitOnGo sep skip cs cur
+  | 0, c :: cs, cur =>
+    if sep.isPrefixOf (c :: cs) then cur.reverse :: splitOnGo sep (sep.length - 1) cs []
+    else splitOnGo sep 0 cs (c :: cur)
+def str_split_sep (s sep : Val) : Val :=
+  match s, sep with
+  | str s, str sep => if sep = "" then err else tup ((splitOnGo sep.toList 0 s.toList []).map ofL)
+  | _, _ => err
+/-- `sep.join(items)`: every item must be a string -/
+def str_join (sep items : Val) : Val :=
+  match sep, items with
+  | str sep, tup l =>
+    let rec go : List Val → Option (List (List Char))
+      | [] => some []
+      | str x :: r => (go r).map (x.toList :: ·)
+      | _ :: _ => none
+    match go l with
+    | some parts => ofL (sep.toList.intercalate parts)
+    | none => err
+  | _, _ => err
+def str_startswith (s p : Val) : Val :=
+  match s, p with | str s, str p => bool_ (p.toList.isPrefixOf s.toList) | _, _ => err
+def str_endswith (s p : Val) : Val :=
+  match s, p with | str s, str p => bool_ (p.toList.isSuffixOf s.toList) | _, _ => err
+/-- `pat` occurs in `s` (as a contiguous block) -/
+def infixOf (pat : List Char) : List Char → Bool
+  | [] => pat.isEmpty
+  | c :: cs => pat.isPrefixOf (c :: cs) || infixOf pat cs
+/-- `x in c` for a string (substring test) or a list/tuple (some item equal to `x`) -/
+def contains (x c : Val) : Bool :=
+  match c, x with
+  | str s, str p => infixOf p.toList s.toList
+  | tup l, x => l.any (fun v => eq x v)
+  | _, _ => false
+
+/-! ### decimal rendering -/
+def digitChar (d : Nat) : Char :=
+  match d with
+  | 0 => '0' | 1 => '1' | 2 => '2' | 3 => '3' | 4 => '4'
+  | 5 => '5' | 6 => '6' | 7 => '7' | 8 => '8' | _ => '9'
+/-- decimal digits of a natural number, no leading zeros -/
+def natDigits (n : Nat) : List Char :=
+  if n < 10 then [digitChar n] else natDigits (n / 10) ++ [digitChar (n % 10)]
+termination_by n
+decreasing_by omega
+/-- `str(z)` of an int -/
+def intDigits (z : Int) : List Char :=
+  if z < 0 then '-' :: natDigits z.natAbs else natDigits z.toNat
+/-- format spec `0w` / `0wd` on an int: minimum width `w`, zeros between the sign and the digits -/
+def zeroPad (w : Nat) (z : Int) : List Char :=
+  let d := natDigits z.natAbs
+  if z < 0 then '-' :: (List.replicate (w - 1 - d.length) '0' ++ d) else List.replicate (w - d.length) '0' ++ d
+/-- format spec `w` / `wd` on an int: minimum width `w`, right aligned, blanks -/
+def blankPad (w : Nat) (z : Int) : List Char :=
+  let d := intDigits z
+  List.replicate (w - d.length) ' ' ++ d
+/-- format spec `.pf`: the exact value correctly rounded (half to even) to `p` decimals; the sign is that of the
+value itself (`-0.0004` prints as `-0.000`, as CPython does) -/
+def fixedDigits (p : Nat) (q : Rat) : List Char :=
+  let n : Int := roundHE (q * ((10 ^ p : Nat) : Rat))
+  let a := n.natAbs
+  (if q < 0 then ['-'] else []) ++ natDigits (a / 10 ^ p) ++
+    (if p = 0 then [] else '.' :: (List.range p).map (fun i => digitChar (a / 10 ^ (p - 1 - i) % 10)))
+
+/-- `str(x)`: strings, ints, bools and `None` (the `repr` of a float is not modelled: `err`) -/
+def str_ (a : Val) : Val :=
+  match a with
+  | str s => str s
+  | int z => ofL (intDigits z)
+  | bool_ b => str (if b then "True" else "False")
+  | none_ => str "None"
+  | _ => err
+
+def parseNatChars (l : List Char) : Option Nat :=
+  if l.isEmpty || !l.all PyFloat.isDigit then none else some (PyFloat.digitsVal l)
+
+/-- `format(v, spec)` / `f'{v:spec}'` for the specs `''`, `d`, `[0]w[d]` on ints and `.pf` on ints and floats
+(everything else: `err`) -/
+def format_ (v : Val) (spec : String) : Val :=
+  let l := spec.toList
+  if l = [] then str_ v
+  else if l = ['d'] then (match v with | int z => ofL (intDigits z) | _ => err)
+  else
+    match l with
+    | '.' :: r =>
+      (match r.reverse with
+       | 'f' :: pr =>
+         (match parseNatChars pr.reverse, v with
+          | some p, int z => ofL (fixedDigits p z)
+          | some p, flt q => ofL (fixedDigits p q)
+          | _, _ => err)
+       | _ => err)
+    | _ =>
+      let body := if l.getLast? = some 'd' then l.dropLast else l
+      match body, v with
+      | '0' :: w, int z => (match parseNatChars w with | some w => ofL (zeroPad w z) | none => err)
+      | w, int z => (match parseNatChars w with | some w => ofL (blankPad w z) | none => err)
+      | _, _ => err
+
+/-- concatenation of the pieces of an f-string / `str.format` result: every piece must be a string -/
+def fjoin (parts : List Val) : Val :=
+  let rec go : List Val → Option (List Char)
+    | [] => some []
+    | str x :: r => (go r).map (x.toList ++ ·)
+    | _ :: _ => none
+  match go parts with
+  | some l => ofL l
+  | none => err
+
+/-- `divmod(a, b)` (ints only, like `//` and `%` here) -/
+def divmod_ (R : Rounding) (prec : Nat) (a b : Val) : Val :=
+  match floordiv R prec a b, mod R prec a b with
+  | int q, int r => tup [int q, int r]
+  | _, _ => err
+
+/-- did the evaluation of a `try` body statement fail?  Exceptions are values here (`err`), so a handler
+`except SomeError:` is entered whenever the value just computed is `err`, whatever the exception type. -/
+def isErr (a : Val) : Bool :=
+  match a with | err => true | _ => false
 
 end Py
 end Plotink
